@@ -213,7 +213,7 @@ def run_case(seed):
         # more than ten levels: level directories no longer sort like their numbers
         pf = gen.gen_deep_plotfile(rng, nlevels=rng.choice([11, 12, 13]), ndims=rng.choice([2, 3]), nfields=rng.randint(1, 3))
     else:
-        pf = gen.gen_plotfile(rng, allow_repeat=True, max_blocks=rng.choice([2, 3]), odd_names=0.25)
+        pf = gen.gen_plotfile(rng, allow_repeat=True, max_blocks=rng.choice([2, 3]), odd_names=0.25, unicode_names=0.2)
     rsh = random.Random(seed * 7919 + 5)
     if rsh.random() < 0.3:
         # an index space that does not start at zero (AMReX allows any integer box; the reader only has to hand back
@@ -229,6 +229,7 @@ def run_case(seed):
     path = core.scratch_dir(f"c01_{seed}")
     gen.write_plotfile(pf, path)
     count(f"ndims={pf.ndims}")
+    count(f"non-ASCII field names={'names:unicode' in pf.meta['geo']}")
     count(f"levels={pf.nlevels}")
     count(f"payload={pf.meta['payload']}")
     for lk in pf.meta['layouts']:
